@@ -154,6 +154,13 @@ def check_decoders(ctx, n, rng):
                        (b"", sb, "r empty"), (rb, b"", "s empty")):
         expect_reject(ctx, "reject.strings.length", "%s|%s" % (nk, what), util.sigdecode_strings, (a, b), n,
                       util.MalformedSignature, "strings_wrong_length", "sigdecode_strings with %s" % what)
+    for k in range(1, L + 1):
+        for a, b in ((rb[:-k] if k < L else b"", sb + b"\x00" * k), (rb + sb[:k], sb[k:]), (b"\x00" * k + rb, sb[k:]), (rb[k:], sb + rb[:k])):
+            if len(a) + len(b) == 2 * L and len(a) != L:
+                expect_reject(ctx, "reject.strings.length", "%s|compensating" % nk, util.sigdecode_strings, (a, b), n,
+                              util.MalformedSignature, "strings_wrong_length", "sigdecode_strings with lengths (%d, %d), order needs (%d, %d)" % (len(a), len(b), L, L))
+        if k >= 3:
+            break
     for lst in ((rb,), (rb, sb, sb), ()):
         expect_reject(ctx, "reject.strings.count", "%s|%d" % (nk, len(lst)), util.sigdecode_strings, lst, n,
                       util.MalformedSignature, "strings_wrong_count", "sigdecode_strings with %d strings" % len(lst))
